@@ -18,6 +18,7 @@
 #include <link.h>
 #include <stdlib.h>
 #include <stdio.h>
+#include <errno.h>
 #include "vp.h"
 #include "vp_bind.h"
 #include "vssref.h"
@@ -53,6 +54,10 @@ static uint32_t g_ticket;
 static uint8_t* g_order;
 static uint64_t g_noise;
 
+/* errno is an object of the calling thread that is not passed to the library: a library call must leave it as it found it */
+#define ERRNO_MARK 4242
+static void errno_check(worker_t* w, const char* what);
+
 static void hook(vp_ctx_t* c)
 {
     worker_t* w = (worker_t*)c;
@@ -60,6 +65,7 @@ static void hook(vp_ctx_t* c)
     uint32_t t = __atomic_fetch_add(&g_ticket, 1, __ATOMIC_RELAXED);
     if (t < ORDER_MAX) g_order[t] = (uint8_t)c->tid;
     if (g_noise) { uint64_t r = vp_rng_next(&w->noise); if ((r & 0xff) < g_noise) vp_yield(r >> 8); }
+    errno = ERRNO_MARK;       /* whatever the scheduling noise did to it: every library call starts from the mark */
 }
 
 static int check_arena(worker_t* w, const char* what, const char* fmt)
@@ -84,6 +90,17 @@ static void viol_val(worker_t* w, const char* what, const char* fmt, uint64_t ex
     }
 }
 
+static void errno_check(worker_t* w, const char* what)
+{
+    vp_ctx_t* c = &w->c;
+    c->evals++;
+    if (errno != ERRNO_MARK) {
+        int e = errno;
+        if (vp_viol(c, "thread", "errno", what, "changed-by-a-library-call", 0, 0)) { o_s(c, "{\"errno_after\":"); o_u(c, (uint64_t)e); o_s(c, "}"); o_end(c); }
+        errno = ERRNO_MARK;
+    }
+}
+
 static void run_script(worker_t* w)
 {
     vp_ctx_t* c = &w->c;
@@ -95,6 +112,8 @@ static void run_script(worker_t* w)
     const vp_format_t* f = vp_formats[vp_rng_below(r, vp_nformats)];
     for (uint64_t op = 0; op < w->nops; op++) {
         uint64_t k = vp_rng_below(r, 20);
+        if (op) errno_check(w, "library-call");
+        errno = ERRNO_MARK;
         if (k < 1) { f = vp_formats[vp_rng_below(r, vp_nformats)]; }
         if (k < 9) {                      /* field write */
             const vp_field_t* fld = &f->fields[vp_rng_below(r, f->nfields)];
